@@ -8,11 +8,17 @@ from engines import sweep as SW
 HARNESS = os.path.join(VERIF, 'harness', 'ch_C05.py')
 
 
-def to_sql(dialect, names):
+def to_sql(dialect, names, linenos=None):
     from engines.symtok import representatives
     L, P = SW.dialect_classes(dialect)
     rep, lexemes = representatives(L)
-    return ' '.join(lexemes.get(n, n) for n in names)
+    if not linenos:
+        return ' '.join(lexemes.get(n, n) for n in names)
+    out, line = '', linenos[0]
+    for n, ln in zip(names, linenos):
+        out += ('\n' * (ln - line) if ln > line else (' ' if out else '')) + lexemes.get(n, n)
+        line = ln
+    return out
 
 
 def replay_finding(f):
@@ -22,15 +28,13 @@ def replay_finding(f):
     from engines.earley import Earley
     d = f['dialect']
     L, P = SW.dialect_classes(d)
-    if any(n.startswith('<any-of') for n in f['types']):
-        return False, {'note': 'path with an unfixed token; no single text'}
-    sql = to_sql(d, f['types'])
+    sql = SW.rebuild_text(d, f) if f.get('base_sql') else to_sql(d, f.get('instance') or f['types'], f.get('linenos'))
     try:
         lexed = [t.type for t in L().tokenize(sql)]
     except Exception as e:  # noqa
         return False, {'sql': sql, 'lex_error': repr(e)}
     info = {'sql': sql, 'dialect': d, 'token_types': lexed}
-    if lexed != list(f['types']):
+    if lexed != list(f.get('instance') or f['types']):
         info['note'] = 'text does not lex to the path\'s token types'
         return False, info
     try:
@@ -83,7 +87,7 @@ def run(tier):
         stmts = list(corpus[d])
         rnd.shuffle(stmts)
         if tier == 'quick':
-            stmts = stmts[:60]
+            stmts = stmts[:45]
             affix = ((0, 1), (1, 0))
         else:
             affix = ((0, 1), (1, 0), (0, 2), (2, 0), (1, 1))
